@@ -50,7 +50,7 @@ Proof.
   intros src t rk H. unfold ics in H.
   destruct (ty_eqb src t); [inversion H; lia|].
   destruct (is_arith src && is_arith t); [destruct (promotion src t); inversion H; lia|].
-  destruct t; try discriminate; [destruct (is_arith src)|destruct src]; try discriminate; inversion H; lia.
+  destruct t; try discriminate; try (destruct (is_arith src)); try (destruct src); try discriminate; inversion H; lia.
 Qed.
 
 Lemma min_attained : forall c, c <> [] -> (forall j rk, In (j, rk) c -> rk <= 9) ->
